@@ -24,10 +24,12 @@ def base_cfg(todo_p, todo_q, todo_s, msg):
     svcs = {"s": forms[2 * todo_p + todo_q] if todo_s else {"constructor": "fx.NewA", "arguments": ["s"]},
             "u": {"constructor": "fx.NewB", "arguments": ["@s", "%q%"]},
             "n": {"constructor": "fx.NewC", "arguments": ["%p%", "%c%"], "scope": "non_shared"}}
+    # a message may contain anything a Go string literal can: parentheses, commas
+    params["pp"] = '%todo("ask ops (see wiki/secrets, section 2)")%' if (todo_p or todo_q) else "plain"
     return {"meta": {"pkg": "gen", "imports": {"fx": gen.FX}, "functions": {"myfn": "fx.Fn1"}}, "parameters": params, "services": svcs}
 
 
-OPS = [["param", "p"], ["param", "q"], ["param", "c"], ["get", "s"], ["get", "u"], ["get", "n"],
+OPS = [["param", "p"], ["param", "q"], ["param", "c"], ["param", "pp"], ["get", "s"], ["get", "u"], ["get", "n"],
        ["ovparam", "p", {"k": "str", "v": "P2"}], ["ovparam", "q", {"k": "int", "v": 7}], ["ovservice", "s", {"k": "obj", "v": "S2"}]]
 
 
@@ -117,7 +119,11 @@ def run_grouped(ctx, cfgs, _unused, items):
         name = "h%03d" % i
         files = [gen.yaml_doc(cfg)]
         sdef = cfg["services"]["s"]
-        if sdef.get("todo") and len(sdef) > 1:
+        if sdef.get("todo") and len(sdef) == 1:
+            # an explicit `todo: false` definition in the first file, switched to a placeholder by a later file
+            c1 = json.loads(json.dumps(cfg)); c1["services"]["s"] = {"todo": False, "constructor": "fx.NewA", "arguments": ["live"]}
+            files = [gen.yaml_doc(c1), gen.yaml_doc({"services": {"s": {"todo": True}}})]
+        elif sdef.get("todo") and len(sdef) > 1:
             # the placeholder flag in the first file, the rest of the draft in a later one that does not repeat it
             c1 = json.loads(json.dumps(cfg)); c1["services"]["s"] = {"todo": True}
             c2 = {"services": {"s": {k: v for k, v in sdef.items() if k != "todo"}}}
